@@ -79,6 +79,7 @@ def tree_part(ck, n, nwalks, seed, corrupt=None):
     rs = np.random.RandomState(seed + 15)
     count = [0, 0]
     issues_all = []
+    recorded = []      # (dictionary, log_p_one as evaluated when it was taken) - re-evaluated at the end with cold memo tables
 
     for w in range(nwalks):
         shadow = {"objs": None, "how": None, "dicts": None}
@@ -139,6 +140,12 @@ def tree_part(ck, n, nwalks, seed, corrupt=None):
             objs = []
             for t in (cur, sub):
                 d_ = t.to_dict()
+                if len(recorded) < 400:
+                    try:
+                        if absstate.data_ids(absstate.quick_key(t)):
+                            recorded.append((pickle.loads(pickle.dumps(d_)), float(dist.log_p_one(t))))
+                    except Exception:  # noqa
+                        pass
                 if rs.randint(2):
                     d_ = pickle.loads(pickle.dumps(d_))
                 dicts.append((d_, treeadt.tkey(treeadt.proj_tree(t))))
@@ -150,6 +157,19 @@ def tree_part(ck, n, nwalks, seed, corrupt=None):
 
         edges, issues = treeadt.walk(data, list(range(n)), 50, rs, dist, on_state=on_state)
         issues_all += issues
+    # what was recorded during the histories, restored afterwards with cold memo tables (as another process would):
+    # the density evaluated then must be the density of the restored tree
+    from phyclone.tree import Tree as _Tree
+    from phyclone.tree.utils import compute_log_S, _convolve_two_children
+    for d_, lp_then in recorded:
+        compute_log_S.cache_clear()
+        _convolve_two_children.cache_clear()
+        lp_now = float(dist.log_p_one(_Tree.from_dict(d_)))
+        count[0] += 1
+        if abs(lp_now - lp_then) > 1e-9 * (1 + abs(lp_now)):
+            ck.violation("C15|tree|recorded_density", "a tree recorded with log_p_one %.12g during an edit history restores (cold memo tables) to a tree with log_p_one %.12g" % (lp_then, lp_now),
+                         {"recorded": lp_then, "restored": lp_now})
+            break
     ck.evaluations += count[0] + count[1]
     ck.traces_validated += count[1]
     ck.extra["round_trips_checked"] = count[0]
